@@ -77,6 +77,13 @@ def eval_pair(ctx, a, b):
             ctx.violation(f"predicate-{p}-raised", f"{fa}.{p}({fb}) raised {type(e).__name__}: {e}", {"kind": "pair", "a": a, "b": b})
             return
     case = {"kind": "pair", "a": a, "b": b}
+    # the predicates answer for the integers that were given (whatever their size), not for a rounded copy
+    if (fa.start, fa.end, fb.start, fb.end) != (a[1], a[2], b[1], b[2]):
+        ctx.violation("fragment-coordinates-differ-from-those-given", f"given {a[1:3]} {b[1:3]}, held {fa.start}-{fa.end} {fb.start}-{fb.end}", case)
+        return
+    if bool(vals["overlaps"][0]) != (a[0] == b[0] and a[1] <= b[2] and b[1] <= a[2]):
+        ctx.violation("overlaps-differs-from-the-integers-given", f"{fa} vs {fb}: overlaps={vals['overlaps'][0]}", case)
+        return
     for p, (x, y) in vals.items():
         if x != y:
             ctx.violation(f"asymmetric-{p}", f"{fa}.{p}({fb})={x!r} but reversed={y!r}", case)
@@ -113,6 +120,10 @@ def run_random_pairs(shard, ctx):
     for i in range(shard["n"]):
         rng = rng_for(shard["seed"], "c19p", shard["index"], i)
         mag = 10 ** rng.randint(0, 12)
+        if i % 10 == 9:
+            # coordinates are integers of any size: beyond 2**53 neighbouring values are not all distinct as floats
+            mag = 2 ** rng.choice([53, 54, 60, 64]) + rng.randint(0, 7)
+            ctx.count("pairs:coordinates-beyond-2^53")
         s1 = rng.randint(0, mag)
         e1 = s1 + rng.choice([0, 1, rng.randint(0, mag)])
         m = rng.random()
@@ -386,6 +397,7 @@ def gates(c, tier):
         "scan:cli-tpf-input": 100,
         "scan:crowded-assembly-with-780-pairs": 4,
         "scan:cli-output-format:REPR": 200,
+        "pairs:coordinates-beyond-2^53": 1000,
         "pairs:overlap": 1000,
         "pairs:abut": 500,
         "pairs:gap": 1000,
